@@ -12,6 +12,8 @@ received and the label the router reported.
 namespace Rivaas.C08
 open Rivaas.ObsApp
 
+def wReqD : Req := ⟨"GET".toList, "/x".toList, false, 503, 5, "/x".toList⟩
+
 /-- started − ended, gauge series: what must be unchanged by a complete request -/
 def bal (t : Tele) : Int × Int × Int := ((t.started : Int) - t.ended, t.gauge0, t.gaugeA)
 
@@ -193,6 +195,29 @@ theorem app_route_bounded (patterns : List Bytes) (l : Bytes) (h : Obs.labelOK p
   split
   · simp [Obs.labelOK, Obs.sentinels]
   · exact h
+
+/-! ### late-initialised provider -/
+
+theorem lemma_serveDeferred_gauge (b : Bool) (q : Req) (d : Deferred) :
+    (serveDeferred b q d).tele.gauge0 = d.tele.gauge0 ∧ (serveDeferred b q d).tele.gaugeA = d.tele.gaugeA := by
+  unfold serveDeferred
+  cases d.started <;> simp [Tele.begin, Tele.finish, fixed]
+
+/-- a request that began before the provider was started is neither counted in nor counted out: the gauge is at zero
+    after every history, wherever the start happens -/
+theorem deferred_quiescent (startAt : Nat) (reqs : List Req) :
+    ∀ (i : Nat) (d : Deferred), (runDeferred startAt i reqs d).tele.gauge0 = d.tele.gauge0 ∧
+      (runDeferred startAt i reqs d).tele.gaugeA = d.tele.gaugeA := by
+  induction reqs with
+  | nil => intro i d; simp [runDeferred]
+  | cons q rest ih =>
+    intro i d
+    simp only [runDeferred]
+    have h1 := ih (i + 1) (serveDeferred (i == startAt) q d)
+    have h2 := lemma_serveDeferred_gauge (i == startAt) q d
+    exact ⟨h1.1.trans h2.1, h1.2.trans h2.2⟩
+
+example : (runDeferred 1 0 [wReqD, wReqD, wReqD, wReqD] {}).tele.rows = [⟨"/x".toList, 503, 2, 10⟩] := by decide
 
 /-! ### the as-shipped code (before the fixes): `decide` witnesses -/
 
